@@ -34,6 +34,9 @@ ALLOWED_AXIOMS = {
     "ClassicalDedekindReals.sig_forall_dec",
     "ClassicalDedekindReals.sig_not_dec",
     "FunctionalExtensionality.functional_extensionality_dep",
+    # excluded middle: Coq 8.16's stdlib `ln` itself depends on it (ln -> Rln -> ln_exists -> MVT),
+    # so every theorem whose statement mentions ln lists it
+    "Classical_Prop.classic",
 }
 # primitives (not axioms) that Print Assumptions lists for PrimFloat / Uint63 developments
 ALLOWED_PRIMITIVE_PREFIXES = ("PrimFloat.", "Uint63.", "PrimInt63.", "FloatOps.", "SpecFloat.",
